@@ -416,3 +416,35 @@ Section Rel.
     apply eval_R. constructor; cbn; try reflexivity; intros; try apply R_refl. apply Hc.
   Qed.
 End Rel.
+
+(* ------------------------------------------------------------------ *)
+(* the fault hook of Model/Faults.v is an instance                      *)
+(* ------------------------------------------------------------------ *)
+
+Definition trigger_may_panic (t : option trigger) : bool :=
+  match t with Some tr => match t_kind tr with FkPanic => true | FkError => false end | None => false end.
+
+Lemma fault_call_rel : forall t, call_rel (trigger_may_panic t) (fault_call None) (fault_call t).
+Proof.
+  intros t qual name args cur. unfold fault_call.
+  destruct (negb (plain_qualifier qual)); [apply R_refl|].
+  destruct (String.eqb name "fault"); [|apply R_refl].
+  unfold fault_fn.
+  assert (H : forall tag x (v : value),
+             R (trigger_may_panic t) (Ok (RVal v))
+               (match fires t tag x with Some k => fault_outcome k | None => Ok (RVal v) end)).
+  { intros tag x v. destruct t as [tr|]; cbn [fires]; [|apply R_refl].
+    destruct (veqb tag (t_tag tr) && veqb x (t_arg tr)); [|apply R_refl].
+    right. unfold fails, trigger_may_panic. destruct (t_kind tr); cbn; [left|right]; auto. }
+  destruct args as [|tag [|x [|ret [|? ?]]]]; try apply R_refl; cbn [fires]; apply H.
+Qed.
+
+Theorem faulty_run_Rs : forall t fuel wrapped doc q,
+  faulty_run t fuel wrapped doc q = faulty_run None fuel wrapped doc q \/
+  faulty_run t fuel wrapped doc q = Err.
+Proof.
+  intros. unfold faulty_run.
+  apply (api_run_Rs (trigger_may_panic t)).
+  - apply fault_call_rel.
+  - apply fault_join_R, fault_call_rel.
+Qed.
